@@ -81,7 +81,9 @@ theorem transfer_curve {o o' : Obj K} {b1 b1' : Basis K} (hb : o.bases = #[b1])
     {tol : K} (htol : 0 < tol) {us us' : List K} (hlen : us'.length = us.length)
     (hus : ∀ u ∈ us, b1.Admissible tol u) (hus' : ∀ u ∈ us', b1'.Admissible tol u)
     (hsame : ∀ p, p < us.length → SameAlong o o' 0 b1.numFunctions b1'.numFunctions
-      (b1.specRow (us.getD p 0)) (b1'.specRow (us'.getD p 0))) :
+      (b1.specRow (us.getD p 0)) (b1'.specRow (us'.getD p 0)))
+    (hne_b1 : b1.periodic < 0 → us ≠ [] := by (first | assumption | (simp; done) | skip))
+    (hne_b1p : b1'.periodic < 0 → us' ≠ [] := by (first | assumption | (simp; done) | skip)) :
     o'.evaluate tol [us'] true = o.evaluate tol [us] true ∧
       ∃ res, o.evaluate tol [us] true = .ok res ∧ res.shape = [us.length, o.dimension] := by
   obtain ⟨res, e1, e2, e3⟩ := eval_curve hb hv1 hs hnc htol hus
@@ -111,7 +113,10 @@ theorem transfer_surface_u {o o' : Obj K} {b1 b1' b2 : Basis K} (hb : o.bases = 
     (hus : ∀ u ∈ us, b1.Admissible tol u) (hus' : ∀ u ∈ us', b1'.Admissible tol u)
     (hvs : ∀ v ∈ vs, b2.Admissible tol v)
     (hsame : ∀ p, p < us.length → SameAlong o o' 0 b1.numFunctions b1'.numFunctions
-      (b1.specRow (us.getD p 0)) (b1'.specRow (us'.getD p 0))) :
+      (b1.specRow (us.getD p 0)) (b1'.specRow (us'.getD p 0)))
+    (hne_b1 : b1.periodic < 0 → us ≠ [] := by (first | assumption | (simp; done) | skip))
+    (hne_b1p : b1'.periodic < 0 → us' ≠ [] := by (first | assumption | (simp; done) | skip))
+    (hne_b2 : b2.periodic < 0 → vs ≠ [] := by (first | assumption | (simp; done) | skip)) :
     o'.evaluate tol [us', vs] true = o.evaluate tol [us, vs] true ∧
       ∃ res, o.evaluate tol [us, vs] true = .ok res ∧
         res.shape = [us.length, vs.length, o.dimension] := by
@@ -149,7 +154,10 @@ theorem transfer_surface_v {o o' : Obj K} {b1 b2 b2' : Basis K} (hb : o.bases = 
     (hus : ∀ u ∈ us, b1.Admissible tol u)
     (hvs : ∀ v ∈ vs, b2.Admissible tol v) (hvs' : ∀ v ∈ vs', b2'.Admissible tol v)
     (hsame : ∀ p, p < vs.length → SameAlong o o' 1 b2.numFunctions b2'.numFunctions
-      (b2.specRow (vs.getD p 0)) (b2'.specRow (vs'.getD p 0))) :
+      (b2.specRow (vs.getD p 0)) (b2'.specRow (vs'.getD p 0)))
+    (hne_b1 : b1.periodic < 0 → us ≠ [] := by (first | assumption | (simp; done) | skip))
+    (hne_b2 : b2.periodic < 0 → vs ≠ [] := by (first | assumption | (simp; done) | skip))
+    (hne_b2p : b2'.periodic < 0 → vs' ≠ [] := by (first | assumption | (simp; done) | skip)) :
     o'.evaluate tol [us, vs'] true = o.evaluate tol [us, vs] true ∧
       ∃ res, o.evaluate tol [us, vs] true = .ok res ∧
         res.shape = [us.length, vs.length, o.dimension] := by
@@ -207,7 +215,11 @@ theorem transfer_volume_u {o o' : Obj K} {b1 b1' b2 b3 : Basis K} (hb : o.bases 
     (hus : ∀ u ∈ us, b1.Admissible tol u) (hus' : ∀ u ∈ us', b1'.Admissible tol u)
     (hvs : ∀ v ∈ vs, b2.Admissible tol v) (hws : ∀ w ∈ ws, b3.Admissible tol w)
     (hsame : ∀ p, p < us.length → SameAlong o o' 0 b1.numFunctions b1'.numFunctions
-      (b1.specRow (us.getD p 0)) (b1'.specRow (us'.getD p 0))) :
+      (b1.specRow (us.getD p 0)) (b1'.specRow (us'.getD p 0)))
+    (hne_b1 : b1.periodic < 0 → us ≠ [] := by (first | assumption | (simp; done) | skip))
+    (hne_b1p : b1'.periodic < 0 → us' ≠ [] := by (first | assumption | (simp; done) | skip))
+    (hne_b2 : b2.periodic < 0 → vs ≠ [] := by (first | assumption | (simp; done) | skip))
+    (hne_b3 : b3.periodic < 0 → ws ≠ [] := by (first | assumption | (simp; done) | skip)) :
     o'.evaluate tol [us', vs, ws] true = o.evaluate tol [us, vs, ws] true ∧
       ∃ res, o.evaluate tol [us, vs, ws] true = .ok res ∧
         res.shape = [us.length, vs.length, ws.length, o.dimension] := by
@@ -248,7 +260,11 @@ theorem transfer_volume_v {o o' : Obj K} {b1 b2 b2' b3 : Basis K} (hb : o.bases 
     (hvs : ∀ v ∈ vs, b2.Admissible tol v) (hvs' : ∀ v ∈ vs', b2'.Admissible tol v)
     (hws : ∀ w ∈ ws, b3.Admissible tol w)
     (hsame : ∀ p, p < vs.length → SameAlong o o' 1 b2.numFunctions b2'.numFunctions
-      (b2.specRow (vs.getD p 0)) (b2'.specRow (vs'.getD p 0))) :
+      (b2.specRow (vs.getD p 0)) (b2'.specRow (vs'.getD p 0)))
+    (hne_b1 : b1.periodic < 0 → us ≠ [] := by (first | assumption | (simp; done) | skip))
+    (hne_b2 : b2.periodic < 0 → vs ≠ [] := by (first | assumption | (simp; done) | skip))
+    (hne_b2p : b2'.periodic < 0 → vs' ≠ [] := by (first | assumption | (simp; done) | skip))
+    (hne_b3 : b3.periodic < 0 → ws ≠ [] := by (first | assumption | (simp; done) | skip)) :
     o'.evaluate tol [us, vs', ws] true = o.evaluate tol [us, vs, ws] true ∧
       ∃ res, o.evaluate tol [us, vs, ws] true = .ok res ∧
         res.shape = [us.length, vs.length, ws.length, o.dimension] := by
@@ -287,7 +303,11 @@ theorem transfer_volume_w {o o' : Obj K} {b1 b2 b3 b3' : Basis K} (hb : o.bases 
     (hus : ∀ u ∈ us, b1.Admissible tol u) (hvs : ∀ v ∈ vs, b2.Admissible tol v)
     (hws : ∀ w ∈ ws, b3.Admissible tol w) (hws' : ∀ w ∈ ws', b3'.Admissible tol w)
     (hsame : ∀ p, p < ws.length → SameAlong o o' 2 b3.numFunctions b3'.numFunctions
-      (b3.specRow (ws.getD p 0)) (b3'.specRow (ws'.getD p 0))) :
+      (b3.specRow (ws.getD p 0)) (b3'.specRow (ws'.getD p 0)))
+    (hne_b1 : b1.periodic < 0 → us ≠ [] := by (first | assumption | (simp; done) | skip))
+    (hne_b2 : b2.periodic < 0 → vs ≠ [] := by (first | assumption | (simp; done) | skip))
+    (hne_b3 : b3.periodic < 0 → ws ≠ [] := by (first | assumption | (simp; done) | skip))
+    (hne_b3p : b3'.periodic < 0 → ws' ≠ [] := by (first | assumption | (simp; done) | skip)) :
     o'.evaluate tol [us, vs, ws'] true = o.evaluate tol [us, vs, ws] true ∧
       ∃ res, o.evaluate tol [us, vs, ws] true = .ok res ∧
         res.shape = [us.length, vs.length, ws.length, o.dimension] := by
